@@ -283,7 +283,11 @@ CLAIMS = {
          "with the variable used nowhere else). The case list of collect_captured is regenerated from lift.rs on every run, checked against the "
          "LiftExpr declaration (every sub-expression field walked) and proved equal to the model's traversal (capture_walk_table). "
          "Oracle independent of the model: the REAL Lift file must be closed (no lifted function mentions a local it does not bind); the REAL Mono, Lift and ANF dumps under Sem and the REAL Go under Go.Sem must "
-         "agree whenever Go.Check accepts the Go.",
+         "agree whenever Go.Check accepts the Go. Spelling twins (model-free, on the same real dumps): capture sites x value kind x binder x "
+         "nesting with the captured variable spelled like a package-level name (variant upper/lower case with/without payload, struct, enum type, "
+         "function, builtin; declared in the same or another file) must be accepted like, print at every stage what, and capture the same "
+         "environment-struct fields (modulo the renaming) as the alpha-twin with a fresh name, and print what the program with the closure body "
+         "evaluated in place prints.",
     design_ref="§5 C08, 'C08 — as built'",
     note="PARTIAL: DirectFlow is a hypothesis decided per program (by running the verified check on the model's output / the real output), not a "
          "theorem about a syntactic class; the evidence reports its ratio (all generated flows except two closures sharing one struct field). The "
